@@ -41,7 +41,7 @@ def derive(demo):
     """(module dir, package, -run regex) from the demonstration's header comment."""
     head = "".join(open(demo).readlines()[:6])
     m = re.search(r"-run\s+'?([\w|_]+)'?((?:\s+-\w+)*)\s+(\S+)", head)
-    run, pkg = m.group(1), m.group(3)
+    run, pkg = m.group(1), m.group(3).rstrip(").,;")
     if "cd cmd" in head or "cmd/car" in head:
         mod = "cmd"
     elif re.search(r"\bv2\b", head.replace("go-car/v2", "go-car/v2 ")):
